@@ -61,7 +61,7 @@ struct vf_ghost {
   _Bool rqrs_in;                    /* remoteQueueReadSubmitted_ when the loop body was entered */
   /* submission */
   unsigned populate_calls; struct io_uring_sqe* populated; _Bool populate_accept; unsigned sq_publishes; unsigned tail_at_entry; _Bool room_at_entry;
-  unsigned cq_head_stores; unsigned acq_head; unsigned acq_count; _Bool acq_looped;
+  unsigned cq_head_stores; unsigned acq_head; unsigned acq_count; _Bool acq_looped; unsigned acq_calls;
   /* io_uring_enter */
   unsigned enters; unsigned enter_submit; unsigned enter_min; unsigned enter_flags; int enter_result; _Bool enter_local_empty; _Bool enter_rqrs; _Bool enter_cq_full;
   unsigned unflushed_before_enter, pending_before_enter;
@@ -542,8 +542,9 @@ static void acq__loop0(struct io_uring_context* self, uint32_t cqHead, uint32_t 
 
 void CTX_acquire_completion_queue_items(struct io_uring_context* self)
 __CPROVER_requires(self == &S && ON_IO && G.i_am_consumer && SIZES_OK && RING_OK && Q_WF_ABS(LOCALQ) && (!S.remoteQueueReadSubmitted_ ==> S.remoteQueue_.head_ != INACT) \
-                   && G.cq_head_stores == 0 && !G.acq_looped && G.eventfd_reads == 0 && G.rqrs_in == S.remoteQueueReadSubmitted_)
-__CPROVER_assigns(ACQ_BODY_ASSIGNS, K.cqHead, S.cqPendingCount_, S.localQueue_, W0, WT, X0, XT, G.cq_head_stores, G.acq_looped, G.acq_head, G.acq_count)
+                   && G.cq_head_stores == 0 && !G.acq_looped && G.eventfd_reads == 0 && G.rqrs_in == S.remoteQueueReadSubmitted_ && G.acq_calls < 8)
+__CPROVER_assigns(ACQ_BODY_ASSIGNS, K.cqHead, S.cqPendingCount_, S.localQueue_, W0, WT, X0, XT, G.cq_head_stores, G.acq_looped, G.acq_head, G.acq_count, G.acq_calls)
+__CPROVER_ensures(G.acq_calls == __CPROVER_old(G.acq_calls) + 1) /* ghost: one look at the completion queue (entry hook, no statement changed) */
 __CPROVER_ensures(RING_OK) /* ring counters stay exact */
 __CPROVER_ensures(G.acq_looped ==> (G.cq_head_stores == 1 && G.acq_count >= 1 && G.acq_count <= S.cqEntryCount_ && K.cqHead == __CPROVER_old(K.cqHead) + G.acq_count \
                    && S.cqPendingCount_ == __CPROVER_old(S.cqPendingCount_) - G.acq_count)) /* every CQE dispatched is consumed exactly once and accounted for */
@@ -654,7 +655,7 @@ __CPROVER_ensures(RING_OK && Q_WF_ABS(LOCALQ) && Q_WF_ABS(PIOQ))
 /*@LOOPBODY run_impl.loop1.body*/
 
 #define RUN_BODY_FRESH (G.lin_count == 0 && G.mr_calls == 0 && G.dq_count == 0 && G.dq_mr_calls == 0 && !G.took && G.exec == 0 && !G.dead && PENDING.head_ == NULL && PENDING.tail_ == NULL \
-                        && G.enters == 0 && G.throws == 0 && G.rqrs_in == S.remoteQueueReadSubmitted_ && G.timers_calls == 0 && G.cq_head_stores == 0 && !G.acq_looped && G.eventfd_reads == 0 \
+                        && G.enters == 0 && G.throws == 0 && G.rqrs_in == S.remoteQueueReadSubmitted_ && G.timers_calls == 0 && G.cq_head_stores == 0 && !G.acq_looped && G.acq_calls == 0 && G.eventfd_reads == 0 \
                         && G.populate_calls == 0 && G.sq_publishes == 0 && !G.populate_accept)
 int run__loop0_body(struct io_uring_context* self, const _Bool* shouldStop)
 __CPROVER_requires(self == &S && shouldStop == &SHOULD_STOP && RUN_INV && (/*@LOOPCOND run_impl.loop0.cond*/) && RUN_BODY_FRESH)
@@ -668,6 +669,7 @@ __CPROVER_ensures((__CPROVER_return_value == VF_X_CONTINUE && G.enters == 1) ==>
 __CPROVER_ensures((__CPROVER_return_value == VF_X_CONTINUE && S.remoteQueueReadSubmitted_ && !(G.rqrs_in && G.eventfd_reads == 0)) ==> (G.lin_count == 1 && G.lin_new == INACT && G.lin_old == NULL && G.sq_publishes == 1)) /* C14-1: the flag is set only after ITS mark-inactive step found the remote queue empty and the eventfd poll was published */
 __CPROVER_ensures((__CPROVER_return_value == VF_X_CONTINUE && G.rqrs_in && G.eventfd_reads == 0) ==> (G.lin_count == 0 && G.dq_count == 0 && S.remoteQueueReadSubmitted_)) /* while marked inactive the loop does not touch the remote queue (it waits for the wake-up) */
 __CPROVER_ensures((__CPROVER_return_value == VF_X_CONTINUE && G.lin_count == 1 && G.lin_new == INACT) ==> (G.enters == 1 && G.enter_submit >= 1)) /* C14-1: a freshly published eventfd poll is handed to the kernel in the same round (before the loop can block) */
+__CPROVER_ensures(__CPROVER_return_value == VF_X_CONTINUE ==> G.acq_calls == 1) /* C14: every round of the loop looks at the completion queue (the eventfd poll, the timer and every I/O completion arrive there): remote work and a remote stop request are not starved by work that keeps rescheduling itself locally */
 /*@LOOPBODY run_impl.loop0.body*/
 
 /* ---------------- harnesses ---------------- */
@@ -681,7 +683,7 @@ static void h_init(void) {
   G.eventfd_reads = 0; G.due_resets = 0; G.throws = 0;
   G.exec = 0; G.exec_item = NULL; G.dead = 0; G.took = 0; G.timers_calls = 0;
   G.populate_calls = 0; G.populated = NULL; G.populate_accept = 0; G.sq_publishes = 0; G.tail_at_entry = 0; G.room_at_entry = 0;
-  G.cq_head_stores = 0; G.acq_head = 0; G.acq_count = 0; G.acq_looped = 0;
+  G.cq_head_stores = 0; G.acq_head = 0; G.acq_count = 0; G.acq_looped = 0; G.acq_calls = 0;
   G.enters = 0; G.enter_submit = 0; G.enter_min = 0; G.enter_flags = 0; G.enter_result = 0;
   { struct io_uring_sqe stale; SQES[K.sqTail & S.sqMask_] = stale; }   /* the next free slot holds whatever an earlier, different operation left there */
   PENDING.head_ = NULL; PENDING.tail_ = NULL; SHOULD_STOP = VF_nondet_bool();
